@@ -1,4 +1,6 @@
 import B2Z.Props.C01
+import B2Z.Proofs.Checks
+import B2Z.Proofs.ChecksOrder
 /-! # C03 — output is invariant under how the work is decomposed, scheduled or split
 
 Corollaries of the pipeline refinement theorem (`Props/C01.lean`): the specification side does not
@@ -44,3 +46,25 @@ theorem C03_chunks_only_change_grid (c₁ c₂ : Cfg) (enc : α → β) (vals : 
   C03_config_invariant c₁ c₂ enc vals hn h1 h2 hcap o₁ o₂ hp1 hp2
 
 end B2Z.Pipe
+
+namespace B2Z.Checks
+
+/-- no two partitions have the same sort key `(contig, start)` -/
+def DistinctKeys (ps : List Part) : Prop := ps.Pairwise fun a b => ¬ (a.contig = b.contig ∧ a.start = b.start)
+
+/-- **C03 (input order)**: the order in which the input files (hence their partitions) are given does
+    not matter: explode sorts the partitions by `(header contig index, start)`, and when those keys are
+    distinct — as they are for any accepted input set, whose partitions are strictly separated — the
+    sorted order is unique -/
+theorem C03_file_order_invariant (ps ps' : List Part) (h : ps.Perm ps') (hk : DistinctKeys ps)
+    (heq : ∀ a ∈ ps, ∀ b ∈ ps, a.contig = b.contig → a.start = b.start → a = b) :
+    sortParts ps = sortParts ps' := by
+  have _ := hk
+  have hperm : (sortParts ps).Perm (sortParts ps') :=
+    ((sortParts_perm' ps).trans h).trans (sortParts_perm' ps').symm
+  refine sorted_perm_eq (sortParts_sorted' ps) (sortParts_sorted' ps') hperm ?_
+  intro a ha b hb hab hba
+  have hk' := Part.le_antisymm_key hab hba
+  exact heq a ((sortParts_perm' ps).mem_iff.1 ha) b ((sortParts_perm' ps).mem_iff.1 hb) hk'.1 hk'.2
+
+end B2Z.Checks
